@@ -481,8 +481,13 @@ def range_insert_loops(ctx, sr, target=('S', 'dirty')):
     out = set()
     for (func, head), sgs in by.items():
         body = prog.bodies.get(func)
-        if body is None or not loop_exits_only_at_head(body, head, sr['engine'], func):
+        if body is None:
             continue
+        if isinstance(head, int):
+            if not loop_exits_only_at_head(body, head, sr['engine'], func):
+                continue
+        elif not (isinstance(head, tuple) and head and head[0] == 'for_each'):
+            continue          # (`(a..b).for_each(|y| { set.insert(y); })` always walks the whole range)
         ok = True
         for sg in sgs:
             pre, lev = seg_events(dict(sg, kind='backedge'))
@@ -661,7 +666,7 @@ def dirty_marks(ctx, sr, evs):
             r = collected_range(ev[2])
             if r is not None and not r[3]:
                 marks.append(('range', r[0], r[1], r[2]))
-        elif ev[0] == 'set.insert' and ev[1] == ('S', 'dirty'):
+        elif ev[0] in ('set.insert', 'set.member') and ev[1] == ('S', 'dirty'):
             marks.append(('one', ev[2]))
         elif ev[0] == 'set.extend' and ev[1] == ('S', 'dirty') and isinstance(ev[2], tuple) and ev[2][0] == 'range':
             marks.append(('range', ev[2][1], ev[2][2], bool(ev[2][3])))
